@@ -59,22 +59,13 @@ var corpus = []struct {
 			d.Spec.Template = tplOf(2)
 			d.Spec.Strategy.Canary.Duration = &metav1.Duration{Duration: 20 * time.Minute}
 		})
-		for k := 0; k < 4; k++ { // replica set created, active pod of the canary node replaced, canary pod Ready
+		// the FIRST pod of the new template crash-loops, whenever it is created (not at a fixed round: a faulted
+		// run may create it later than the fault-free one): the controller itself must notice (auto-fail), mark
+		// the canary failed and roll back — the verdict lives nowhere but in that pod until its status write lands
+		s.badOnce = true
+		s.badHash, _ = comparison.GenerateMD5PodTemplateSpec(func() *corev1.PodTemplateSpec { t := tplOf(2); return &t }())
+		for k := 0; k < 4; k++ { // replica set created, active pod of the canary node replaced, canary pod crash-loops
 			s.round(true)
-		}
-		// the canary pods crash-loop: the controller itself must notice (auto-fail), mark the canary failed
-		// and roll back — the verdict it computes lives nowhere but in the pods until its status write lands
-		h2, _ := comparison.GenerateMD5PodTemplateSpec(func() *corev1.PodTemplateSpec { t := tplOf(2); return &t }())
-		for _, p := range s.w.pods(s.ns) {
-			if p.Annotations[edsv1.MD5ExtendedDaemonSetAnnotationKey] != h2 {
-				continue
-			}
-			s.w.podStatus(s.ns, p.Name, func(pd *corev1.Pod) {
-				pd.Status.Conditions = []corev1.PodCondition{readyCond(false, time.Now().Truncate(time.Second))}
-				pd.Status.ContainerStatuses = []corev1.ContainerStatus{{Name: "main", RestartCount: 9,
-					LastTerminationState: corev1.ContainerState{Terminated: &corev1.ContainerStateTerminated{Reason: "Error",
-						FinishedAt: metav1.NewTime(time.Now().Truncate(time.Second)), ExitCode: 1}}}}
-			})
 		}
 	}},
 	{"node-removal", false, func(s *scenario) {
